@@ -411,8 +411,12 @@ func (e *bEnv) FetchSourcePackage(ctx context.Context, sourceType string, u *url
 	for _, f := range e.c.World.Fetch {
 		if f.P == name {
 			os.MkdirAll(filepath.Join(targetDir, "m", "m"), 0755)
+			body := bodyOf(f.Content)
 			for file := range templateFiles {
-				os.WriteFile(filepath.Join(targetDir, file), []byte(fmt.Sprintf("content-%d of %s", f.Content, file)), 0644)
+				os.WriteFile(filepath.Join(targetDir, file), []byte(fmt.Sprintf("content-%d of %s", body, file)), 0644)
+			}
+			if f.Content == 3 || f.Content == 5 {
+				os.WriteFile(filepath.Join(targetDir, ".terraformignore"), []byte(fmt.Sprintf("# rule file of variant %d\n", f.Content)), 0644)
 			}
 			if f.Content%2 == 0 {
 				// links, an empty directory and odd modes travel with this content id
@@ -439,6 +443,10 @@ func (e *bEnv) FetchSourcePackage(ctx context.Context, sourceType string, u *url
 			var resp sourcebundle.FetchSourcePackageResponse
 			if f.Meta {
 				resp.PackageMeta = sourcebundle.PackageMetaWithGitMetadata("commit-of-"+name, "message of "+name)
+			} else if e.g.seed%2 == 1 {
+				// "no metadata" may also arrive as a metadata object that names no commit: nothing of it is recorded,
+				// so the closed bundle, the re-opened one and the extracted one must all report none
+				resp.PackageMeta = sourcebundle.PackageMetaWithGitMetadata("", "only a message")
 			}
 			return resp, nil
 		}
@@ -851,6 +859,15 @@ func manifestOf(dir string) (string, []byte) {
 	return hex.EncodeToString(h[:]), b
 }
 
+// bodyOf: the text the template files carry for a content id. Contents 3 and 5 are the same files except for the
+// package's own rule file.
+func bodyOf(content int) int {
+	if content == 5 {
+		return 3
+	}
+	return content
+}
+
 func (e *bEnv) inspect(bundle *sourcebundle.Bundle) {
 	c, g, obs := e.c, e.g, e.obs
 	content := map[string]int{}
@@ -929,14 +946,14 @@ func (e *bEnv) inspect(bundle *sourcebundle.Bundle) {
 		}
 		if exists && !fi.IsDir() {
 			b, _ := os.ReadFile(p)
-			if string(b) != fmt.Sprintf("content-%d of %s", content[pkg], s) {
+			if string(b) != fmt.Sprintf("content-%d of %s", bodyOf(content[pkg]), s) {
 				obs.LookupBad = append(obs.LookupBad, what+": content differs")
 			}
 		}
 		if exists && fi.IsDir() {
 			probe := filepath.Join(p, map[string]string{"": "main", "m": "f", "m/m": "g"}[s])
 			b, _ := os.ReadFile(probe)
-			if !strings.HasPrefix(string(b), fmt.Sprintf("content-%d of ", content[pkg])) {
+			if !strings.HasPrefix(string(b), fmt.Sprintf("content-%d of ", bodyOf(content[pkg]))) {
 				obs.LookupBad = append(obs.LookupBad, what+": directory holds other content")
 			}
 		}
